@@ -19,8 +19,10 @@
    - the REPRESENTATION of identifier cells (Rt/OpenTypeCell.v): the minimal
      two's-complement octets of an identifier denote it, for every integer; the
      compiler's INTEGER_t emitter (-fwide-types) yields exactly these octets, and
-     yields something exactly on 0..32767; the selector over octet cells, given the
-     octets of the decoded identifier, is the selector over the abstract cells, so
+     yields something exactly on 0..32767; INTEGER_compare == 0 on two non-empty
+     INTEGER_t is equality of the integers they denote; the selector over octet cells
+     that denote the identifiers, given any octets denoting the decoded identifier, is
+     the selector over the abstract cells, so
      the emitted INTEGER_t table resolves like the set as written and the frame
      decoders over it are the abstract ones; a cell one octet short loses its row
      and answers to another identifier (witness). *)
@@ -109,6 +111,16 @@ Print Assumptions C18_emit_wide_cell_exact.
 Theorem C18_emit_wide_cell_domain : forall z, emit_wide_cell z = None <-> (z < 0 \/ 32767 < z).
 Proof. exact emit_wide_cell_domain. Qed.
 Print Assumptions C18_emit_wide_cell_domain.
+
+Theorem C18_octets_eqb_value : forall a b, bytes_ok a -> bytes_ok b -> a <> [] -> b <> [] ->
+  (octets_eqb a b = true <-> twos_value a = twos_value b).
+Proof. exact octets_eqb_value. Qed.
+Print Assumptions C18_octets_eqb_value.
+
+Theorem C18_select_denoting : forall etbl tbl key, cells_denote etbl tbl -> bytes_ok key -> key <> [] ->
+  select_octets etbl key = select tbl (VInt (twos_value key)).
+Proof. exact select_denoting. Qed.
+Print Assumptions C18_select_denoting.
 
 Theorem C18_select_encoded : forall tbl z, int_cells tbl ->
   select_rep RWide (encode_table tbl) (VInt z) = select tbl (VInt z).
